@@ -268,9 +268,27 @@ func pow2(t *rapid.T, label string, lo, hi int) float64 {
 	return v
 }
 
+var evenRamps int64
+
 func genStops(t *rapid.T) []Stop {
 	n := rapid.SampledFrom([]int{2, 2, 3, 3, 4, 5, 8, 20, 58}).Draw(t, "nstops")
 	offs := gen.Offsets(t, n, "off")
+	if rapid.IntRange(0, 5).Draw(t, "even") == 0 {
+		// evenly spaced stops on a power-of-two grid (what a ramp sampled from a colour map looks
+		// like): every width is bit-identical, the first offset may sit well above 0
+		den := 16 << uint(rapid.IntRange(0, 4).Draw(t, "even.den"))
+		n = rapid.IntRange(2, min(58, den+1)).Draw(t, "even.n")
+		if n < 9 && den+1 >= 9 && rapid.Bool().Draw(t, "even.long") {
+			n = rapid.IntRange(9, min(58, den+1)).Draw(t, "even.n2")
+		}
+		step := rapid.IntRange(1, den/(n-1)).Draw(t, "even.step")
+		k0 := rapid.IntRange(0, den-(n-1)*step).Draw(t, "even.k0")
+		offs = offs[:0]
+		for i := 0; i < n; i++ {
+			offs = append(offs, float32(k0+i*step)/float32(den))
+		}
+		evenRamps++
+	}
 	if n >= 3 && rapid.IntRange(0, 4).Draw(t, "hardedge") == 0 {
 		// a hard edge: a stop one float32 step above its predecessor (strictly increasing still)
 		i := rapid.IntRange(0, n-2).Draw(t, "hardedge.at")
@@ -475,6 +493,7 @@ func TestGradient(t *testing.T) {
 		subGrad.Run(t, c)
 	})
 	subGrad.Label("pixels-with-offset-beyond-2^54-decided-exactly", astronomic)
+	subGrad.Label("evenly-spaced-stops-on-a-power-of-two-grid", evenRamps)
 }
 
 // Deterministic table: every spread at every integer offset -6..6 and just
